@@ -10,7 +10,7 @@ LEVEL = {
     "C11": "per-shape + **unbounded** allocator + assumed solver", "C12": "per-shape (token data flow) + narrow re-layout clause",
     "C13": "enumerated program shapes, all traces (placement clause only)", "C14": "per-shape, whole method",
     "C16": "**unbounded** scheduler + per-shape", "C17": "**unbounded** arithmetic", "C18": "per-shape, bit-vector, golden model",
-    "C19": "per-shape", "C15": "**unbounded** trip count, per stage count (sequential clauses)", "C06": "per-shape, symbolic arithmetic (substitution equations)",
+    "C19": "per-shape", "C20": "per merge history, symbolic data (graph evaluation)", "C15": "**unbounded** trip count, per stage count (sequential clauses)", "C06": "per-shape, symbolic arithmetic (substitution equations)",
 }
 rows = ["| id | contracts (files) | obligations discharged | refuted = known findings | paths | wall | level |", "|---|---|---|---|---|---|---|"]
 for pid in sorted(PROPERTIES):
@@ -27,7 +27,8 @@ for pid in sorted(PROPERTIES):
         pid, len(spec["contracts"]), ", ".join("`%s`" % f for f in files), " + %d bounded" % nb if nb else "", c["discharged"],
         c.get("obligations_refuted_by_known_findings", 0), " (%s)" % ", ".join(kf) if kf else "", c.get("paths_explored", 0), round(e.get("wall_s", 0)), LEVEL.get(pid, "")))
 na = [f"C{i:02d}" for i in range(1, 21) if f"C{i:02d}" not in PROPERTIES]
-rows.append("| %s | — | — | — | — | — | **not applicable** (Part II §4) |" % ", ".join(na))
+if na:
+    rows.append("| %s | — | — | — | — | — | **not applicable** (Part II §4) |" % ", ".join(na))
 d = open(os.path.join(ROOT, "DESIGN.md")).read()
 a, b = d.index("<!-- COVTABLE -->"), d.index("<!-- /COVTABLE -->")
 d = d[:a] + "<!-- COVTABLE -->\n" + "\n".join(rows) + "\n" + d[b:]
